@@ -1263,6 +1263,42 @@ func flipModes(c *Config, cs []commitIn) {
 	}
 }
 
+// editInPlace appends a line to one file of one commit (that commit only): when the commit also renames the file,
+// this is a rename together with an edit.
+func editInPlace(c *Config, cs []commitIn) {
+	if len(cs) < 2 {
+		return
+	}
+	// prefer a commit that has a file name its predecessor does not have
+	var cand [][2]int
+	for i := 1; i < len(cs); i++ {
+		prev := map[string]bool{}
+		for _, f := range cs[i-1].Files {
+			prev[f.Name] = true
+		}
+		for j, f := range cs[i].Files {
+			if !prev[f.Name] && len(f.Data) > 0 && !isBinary(f.Data) {
+				cand = append(cand, [2]int{i, j})
+			}
+		}
+	}
+	if len(cand) == 0 || c.Rng.Intn(4) == 0 {
+		i := 1 + c.Rng.Intn(len(cs)-1)
+		if len(cs[i].Files) == 0 {
+			return
+		}
+		cand = [][2]int{{i, c.Rng.Intn(len(cs[i].Files))}}
+	}
+	p := cand[c.Rng.Intn(len(cand))]
+	fs := append([]fileIn{}, cs[p[0]].Files...)
+	d := append([]byte{}, fs[p[1]].Data...)
+	if len(d) > 0 && d[len(d)-1] != '\n' {
+		d = append(d, '\n')
+	}
+	fs[p[1]].Data = append(d, []byte("zz\n")...)
+	cs[p[0]].Files = fs
+}
+
 func genPipe(c *Config, kind string) []commitIn {
 	switch kind {
 	case "octo":
@@ -1380,9 +1416,9 @@ func scaleCases(c *Config) {
 	}
 	cases := []sc{
 		{"scale-diamonds", pipeOpts{ren: true}, shape{au: 7, tk: 64, segs: segsOf("dia", 1100, 0)}},
-		{"scale-diamonds-mixed", pipeOpts{cec: false, ren: true, hib: 1}, shape{au: 3, tk: 257, segs: segsOf("dia", 1030, 3)}},
+		{"scale-diamonds-mixed", pipeOpts{cec: false, ren: true, hib: 1}, shape{au: 1, tk: 5, segs: segsOf("dia", 1030, 3)}}, // 619 ticks
 		{"scale-linear", pipeOpts{ren: false}, shape{au: 1, tk: 3000, segs: segsOf("lin", 10000, 0)}}, // 3000 commits of one developer in one tick
-		{"scale-comb", pipeOpts{cec: true, ren: true, hib: 2}, shape{au: 5, tk: 100, segs: segsOf("comb", 1000, 0)}},
+		{"scale-comb", pipeOpts{cec: true, ren: true, hib: 2}, shape{au: 300, tk: 1500, segs: segsOf("comb", 1000, 0)}}, // 300 developers
 		{"scale-octo", pipeOpts{ren: true, hib: 3}, shape{au: 4, tk: 33, segs: segsOf("octo", 150, 7)}},
 		{"scale-octo-wide", pipeOpts{cec: true, ren: true, hib: 4}, shape{au: 2, tk: 65, segs: cat(segsOf("octo", 12, 33), segsOf("octo", 6, 65))}},
 		{"scale-mixed", pipeOpts{cec: true, ren: true, hib: 1}, shape{au: 7, tk: 31,
@@ -1489,6 +1525,9 @@ func main() {
 				}
 				if k.kind != "octo" && c.Rng.Intn(5) == 0 {
 					flipModes(c, cs)
+				}
+				if k.kind == "linear" && c.Rng.Intn(3) == 0 {
+					editInPlace(c, cs)
 				}
 				if k.kind == "octo" && o.hib == 0 && c.Rng.Intn(3) > 0 {
 					o.hib = 1 + c.Rng.Intn(4)
